@@ -17,7 +17,7 @@ REQUIRED_HOOKS = [
     # input classes that must have been visited
     "ivp-data:int-list", "ivp-data:int-tuple", "ivp-data:int64-array", "ivp-data:int32-array", "ivp-data:mixed-list", "bvp-data:int", "bvp-data:mixed",
     "interval-ends:python-int", "interval:far-out", "slope:tiny", "slope:huge", "equation-scaled:small", "equation-scaled:large",
-    "purity-protocol", "bvp-max_nodes:default", "bvp-max_nodes:mesh+few", "bvp-max_nodes:1.05x-mesh", "bvp-max_nodes:1.2x-mesh",
+    "transform:nested-inverse-depth-2", "transform:nested-inverse-depth-3", "purity-protocol", "bvp-max_nodes:default", "bvp-max_nodes:mesh+few", "bvp-max_nodes:1.05x-mesh", "bvp-max_nodes:1.2x-mesh",
 ]
 REQUIRED_FAMILIES = ["ivp-o1", "ivp-o2", "ivp-o3", "bvp-o1", "bvp-o2", "bvp-o3", "ivp-pyfloat-span", "purity-ivp", "purity-bvp", "bvp-mesh-budget"]
 BUDGET = {"quick": 900, "thorough": 9000}
@@ -53,7 +53,10 @@ RULE = (
     "Family bvp-mesh-budget (every increasing transform x three mesh-size classes): non-uniform initial meshes of 200-5000 nodes "
     "(random spacing ratios up to 3, or graded), max_nodes = default / mesh+1..9 / 1.05 x mesh / 1.2 x mesh, a solution term "
     "cl*exp((x-b)/dl) that varies rapidly towards the right end and a Dirichlet condition there, evaluation at both ends and at 6+6 "
-    "points within six mesh spacings of them; decided by the same accuracy / conditions-met clauses, direct and transformed."
+    "points within six mesh spacings of them; decided by the same accuracy / conditions-met clauses, direct and transformed. "
+    "Transforms built from transforms: InverseRTransform nested to depth 2 over 14 base maps (acts like the base map) and to depth 3 "
+    "over 6 [-1,1] maps (acts like its inverse), every order, IVP (method and tol rotating with the seed; thorough all methods x 3 "
+    "problems) and BVP, with all clauses above; a rotating pair of nested labels also enters the purity and mesh-budget families."
 )
 ASSUMPTIONS = [
     "admissible = order <= 3, leading coefficient >= 0.5, interval strictly inside the transform's domain, increasing map for BVP (solve_bvp needs an increasing mesh), HyperbolicRTransform with b*(number of points-1) < 1 for every array it sees, slope of the map varying by at most a factor 50 over the interval (beyond that SciPy's adaptive error estimates are unreliable next to the branch point of the transformed equation: DOP853 error 0.04 at tol 1e-6 was measured at slope ratio 1700 - a property of the integrator, not of grid)",
@@ -89,7 +92,17 @@ TRANSFORMS = (
     + [("Inverse(HandyMod(m=3))", "B"), ("Inverse(HandyMod(m=2.5))", "B"), ("Inverse(LinearFinite)", "B"), ("Inverse(MultiExp)", "B")]
     + [("LinearInfinite", "B"), ("Exp", "B"), ("Power", "B"), ("Hyperbolic", "B")]
 )
-DECREASING = {"MultiExp", "Inverse(MultiExp)"}  # decreasing maps: decreasing mesh, rejected by scipy's solve_bvp (documented exclusion)
+# transforms BUILT FROM transforms: InverseRTransform nested to depth 2 over every base map (Inverse(Inverse(T)) has T's domain and
+# codomain: class of T) and to depth 3 over the [-1,1] maps (acts like Inverse(T): class B)
+_BASES_A = ["Becke", "Knowles(k=2)", "Knowles(k=2.5)", "Handy(m=2)", "Handy(m=3)", "HandyMod(m=3)", "HandyMod(m=2.5)", "LinearFinite", "MultiExp"]
+_BASES_B = ["Identity", "LinearInfinite", "Exp", "Power", "Hyperbolic"]
+NESTED = (
+    [(f"Inverse(Inverse({t}))", "A") for t in _BASES_A]
+    + [(f"Inverse(Inverse({t}))", "B") for t in _BASES_B]
+    + [(f"Inverse(Inverse(Inverse({t})))", "B") for t in ("Becke", "Knowles(k=2.5)", "Handy(m=3)", "HandyMod(m=3)", "LinearFinite", "MultiExp")]
+)
+TRANSFORM_CLASS = dict(TRANSFORMS + NESTED)
+DECREASING = {lab for lab, _ in TRANSFORMS + NESTED if "MultiExp" in lab}  # decreasing maps: decreasing mesh, rejected by scipy's solve_bvp (documented exclusion)
 
 
 PYFLOAT_NEEDS_SIZE = ("LinearInfinite", "Hyperbolic")  # their deriv() uses x.size (witnesses of the defect fixed in 1e13ca4)
@@ -115,10 +128,22 @@ def cases(tier, seed):
         for label, cls in TRANSFORMS:
             for order in (1, 2):
                 out.append(("ivp-pyfloat-span", {"method": "RK45", "tol": 1e-6, "tf": label, "order": order, "rep": rep}, 1e9 if (rep == 0 and label in PYFLOAT_NEEDS_SIZE) else 1.0))
+    # nested transforms: every nested label x every order, IVP (method and tol rotating) and BVP; thorough: all methods, 3 problems
+    for rep in range(1 if tier == "quick" else 3):
+        for i, (label, cls) in enumerate(NESTED):
+            for order in (1, 2, 3):
+                for mi, method in enumerate(METHODS):
+                    if tier == "quick" and mi != (i + order + seed) % len(METHODS):
+                        continue
+                    tol = TOLS[(i + order + mi + seed + rep) % len(TOLS)]
+                    out.append((f"ivp-o{order}", {"method": method, "tol": tol, "tf": label, "rep": rep, "nested": True}, 3.0 * order))
+                if label not in DECREASING:
+                    out.append((f"bvp-o{order}", {"tol": TOLS[(i + order + seed + rep + 1) % len(TOLS)], "tf": label, "rep": rep, "nested": True}, 4.0 * order))
     # purity of the returned callable: > 2000 distinct points in many calls of varying sizes, interleaved with a second
     # solution, then re-evaluation of the earliest point sets (expensive: ~1-2 s per case)
     for rep in range(1 if tier == "quick" else 4):
-        for i, (label, cls) in enumerate(TRANSFORMS):
+        pool = TRANSFORMS + ([NESTED[(seed + 7 * k) % len(NESTED)] for k in range(2)] if tier == "quick" else NESTED)
+        for i, (label, cls) in enumerate(pool):
             for kind in ("ivp", "bvp"):
                 if kind == "bvp" and label in DECREASING:
                     continue
@@ -133,7 +158,8 @@ def cases(tier, seed):
     # BVP meshes that are large relative to max_nodes (200 ... 5000 nodes, max_nodes from just above the mesh size to 1.2 x
     # and the default), non-uniform, a boundary condition at the right end that matters
     for rep in range(1 if tier == "quick" else 12):
-        for i, (label, cls) in enumerate(TRANSFORMS):
+        pool = TRANSFORMS + ([NESTED[(seed + 5 * k + 3) % len(NESTED)] for k in range(2)] if tier == "quick" else NESTED)
+        for i, (label, cls) in enumerate(pool):
             if label in DECREASING:
                 continue
             for j, nodes in enumerate(("200-700", "700-2500", "2500-5000")):
@@ -168,8 +194,11 @@ def build_transform(label, rng, kind, a, b, slope_class="moderate", nodes_bound=
     import grid.rtransform as rt
 
     p = _param(label)
-    inv = label.startswith("Inverse(")
-    base = label[8:-1] if inv else label
+    depth = 0
+    base = label
+    while base.startswith("Inverse("):
+        depth, base = depth + 1, base[8:-1]
+    inv = depth % 2 == 1  # an odd number of inversions acts like Inverse(T), an even number like T itself
     name = base.split("(")[0]
     L = b - a
     extreme = slope_class != "moderate"
@@ -252,8 +281,10 @@ def build_transform(label, rng, kind, a, b, slope_class="moderate", nodes_bound=
         d["k" if name == "Knowles" else "m"] = p
     d["normalised_slope"] = normalised
     d["slope_class"] = slope_class
-    if inv:
+    for _ in range(depth):
         tf = rt.InverseRTransform(tf)
+    if depth > 1:
+        d["inverse_depth"] = depth
     return tf, d
 
 
@@ -350,7 +381,7 @@ def run_case(ctx, family, params):
     kind = family[7:10] if purity else family[:3]
     order = int(params["order"]) if "order" in params else int(family[-1])
     tol, label, method = float(params["tol"]), params["tf"], params.get("method")
-    cls = dict(TRANSFORMS)[label]
+    cls = TRANSFORM_CLASS[label]
     short = kind == "bvp" and order == 3
     # ---- input classes drawn per case (all from the case rng; counted in the evidence, the important ones are required hooks)
     u = rng.random()
@@ -432,6 +463,8 @@ def run_case(ctx, family, params):
     ctx.case_note("coeff_mode", mode)
     ctx.case_note("transform", tfdesc)
     ctx.count(f"coeff_mode:{mode}")
+    if label.startswith("Inverse(Inverse("):
+        ctx.hit("transform:nested-inverse-depth-" + str(label.count("Inverse(")))
 
     xs = np.concatenate(([float(a), float(b)], np.sort(rng.uniform(a, b, NPTS - 2))))
     if budget:  # 6 + 6 of the interior points within a few mesh spacings of the two ends
@@ -490,8 +523,8 @@ def run_case(ctx, family, params):
                 ctx.case_note("mesh", {"nodes": n0, "max_nodes": max_nodes})
             guess = None if rng.random() < 0.6 else np.zeros((order, n0))
             nod = bool(order >= 2 and rng.random() < 0.15) and not purity
-            kw = {"tol": tol, "max_nodes": max_nodes if budget else (BVP_NODES_HYPERBOLIC if label == "Hyperbolic" else 5000), "initial_guess_y": guess}
-            if budget and max_nodes == 5000 and label != "Hyperbolic" and rng.random() < 0.5:
+            kw = {"tol": tol, "max_nodes": max_nodes if budget else (BVP_NODES_HYPERBOLIC if "Hyperbolic" in label else 5000), "initial_guess_y": guess}
+            if budget and max_nodes == 5000 and "Hyperbolic" not in label and rng.random() < 0.5:
                 del kw["max_nodes"]  # the default of solve_ode_bvp
             sol_d = _call(ctx, esubj + ":direct", gode.solve_ode_bvp, mesh.copy(), pr.fx_callback(), pr.coeff_arg(mode), bd_direct, **kw)
             if nod:  # the default of solve_ode_bvp
@@ -637,14 +670,14 @@ def _purity_protocol(ctx, gode, kind, label, subject, esubj, order, tol, method,
         else:
             _, _, bdB = _bvp_conditions(rng, spec, exB, g_end, "float", None)
             solB_t = _call(ctx, esubj + ":second-solution", gode.solve_ode_bvp, np.linspace(a, b, 15), prB.fx_callback(), prB.coeff_arg("callable"), bdB, tf, tol=tol, no_derivatives=False,
-                           max_nodes=BVP_NODES_HYPERBOLIC if label == "Hyperbolic" else 5000)
+                           max_nodes=BVP_NODES_HYPERBOLIC if "Hyperbolic" in label else 5000)
     except _NoConvergence:
         solB_t = _MISSING
     if solB_t is _MISSING:
         ctx.count("purity:second-solution-unavailable")
     # ---- call plan
     cap = 10**9
-    if label == "Hyperbolic":
+    if "Hyperbolic" in label:
         cap = max(2, int(0.9 / tfdesc["b"]))  # the class wants b*(number of points - 1) < 1 for every array
     sizes = [1, 1, 3, 7, 24, 60]
     while sum(sizes) < PURITY_POINTS:
